@@ -47,6 +47,13 @@ AccOK(e) ==
   /\ e.status_enc = "sat"
   /\ \A j \in 1..Len(e.edits) : e.edits[j].status # "sat"
 
+\* plain and committed public inputs side by side: the key records the number of PLAIN raw inputs; the verifier accepts the
+\* exact vector with the commitment to the committed values and nothing else
+PubCOK(e) ==
+  /\ e.vk_nb = e.np
+  /\ e.verify = "ok"
+  /\ \A f \in {"verify_shorter", "verify_longer", "verify_padded", "verify_other_commitment", "verify_no_commitment"} : e[f] # "ok"
+
 CurveOK(e) ==
   LET c == CurveOf(e.curve) IN
   /\ Trim(e.p) = c.p /\ Trim(e.r) = c.r /\ Trim(e.a) = c.a
@@ -58,7 +65,8 @@ THeader == l <= Len(Rec) /\ Ev.ev = "header" /\ Trim(Ev.native) = Native /\ l' =
 TCurve == l <= Len(Rec) /\ Ev.ev = "Curve" /\ CurveOK(Ev) /\ l' = l + 1
 TPub == l <= Len(Rec) /\ Ev.ev = "Pub" /\ PubOK(Ev) /\ l' = l + 1
 TAcc == l <= Len(Rec) /\ Ev.ev = "Acc" /\ AccOK(Ev) /\ l' = l + 1
-TraceSpec == TInitL /\ [][THeader \/ TCurve \/ TPub \/ TAcc]_l
+TPubC == l <= Len(Rec) /\ Ev.ev = "PubC" /\ PubCOK(Ev) /\ l' = l + 1
+TraceSpec == TInitL /\ [][THeader \/ TCurve \/ TPub \/ TAcc \/ TPubC]_l
 
 TraceAccepted ==
   LET d == TLCGet("stats").diameter IN
